@@ -23,7 +23,10 @@ from wpull.url import URLInfo
 ALPHA = list('./\\%:?*"<>| ') + list('aZ09-_~+&=@;') + ['\x00', '\x1f', '\x7f', 'é', 'İ', 'ß']
 TOKENS = ['..', '...', '%2e', '%2E%2E', '%2f', '%2F..%2F', '%5c', '%00', '%0a', '..%2f..%2fetc%2fpasswd', '%252e%252e', 'a/../../b', '/', '//', './', '../', '..\\..\\x', 'con', 'nul', 'a.', 'a ', ' ', '. ',
           'x' * 300, 'é' * 120, '%c3%a9', '%ff%fe', '~', 'index.html', '.listing', 'a?b', 'a#b', 'a;type=i', '%2e%2e;type=a', '..;x', 'a\tb', 'a\nb', 'a\rb', '%0d%0a', '\\', '\\..\\', 'C:', 'C:\\x', 'file:',
-          '....', '.%2e', '%2e.', '%2E/', '%2F%2E%2E', 'a%2F..%2Fb', '%', '%%', '%zz']
+          '....', '.%2e', '%2e.', '%2E/', '%2F%2E%2E', 'a%2F..%2Fb', '%', '%%', '%zz',
+          # compatibility look-alikes of '.', '..' and '/' (NFKC / NFKD / case folding must not turn them into the real thing)
+          '\u2024', '\u2024\u2024', '\u2025', '\uff0e', '\uff0e\uff0e', '\ufe52\ufe52', '\ufe30', '\u2026', '\uff0f', '\u2215', '\u2044', '\uff3c', '..\uff0f..', '\u2025\uff0fetc',
+          '%E2%80%A5', '%E2%80%A4%E2%80%A4', '%EF%BC%8E%EF%BC%8E', '%EF%BC%8F', '%E2%80%A5%EF%BC%8Fx', '\u0130', '\u212a', '\u017f', '\ufb00']
 ROOTDIR = '/srv/download root'
 
 
